@@ -13,7 +13,9 @@ Case (JSON-able):
    "msgs": [{"kind": "P"|"C"|"R", "ncmd": n, "rel": 0/1, "acks": 0/1,
              "sub": {"<sid>": [pred, beh]},                                # pred in "t","f","x"
              "mods": [[hookset.., hookset_self]..]}]}                     # hookset = [pkt, lludp, rlv]
-  beh  = string: ops T D S C M (uncaught) / t d s c m (error caught by the addon), then 0 | 1 | x
+  beh  = string: ops T D S C M F (uncaught) / t d s c m f (error caught by the addon), then 0 | 1 | x
+         F = take() on a message that cannot be deep-copied (an object whose __deepcopy__ raises sits in
+         message.meta, as when a packet hook tags packet.meta with a ProxiedRegion): take() raises
   pbeh = "0" | "1" | "x";  missing hook = "-";  rlv = "-" (no hook) or a string of pbeh chars, one per command
 """
 from __future__ import annotations
@@ -53,7 +55,7 @@ TRUSTED = [
     "hook/subscriber bodies, and shown not to extend to predicates: C07_isolation_predicate_refuted)",
 ]
 
-OPS = "TDSCM"
+OPS = "TDSCMF"
 HANDLERS = ("sn", "sw", "rn", "rw")
 HID = {"sn": "a", "sw": "b", "rn": "c", "rw": "d"}
 CMD_TEXT = "xyzzy7 arg"
@@ -201,6 +203,28 @@ class _Logger:
         pass
 
 
+class CopyFails(Exception):
+    pass
+
+
+class Uncopyable:
+    """stands for anything that cannot be deep-copied (ProxiedRegion, sockets, locks, ...)"""
+
+    def __deepcopy__(self, memo):
+        raise CopyFails("cannot deep-copy this")
+
+    __copy__ = __deepcopy__
+
+
+def _failing_take(message):
+    """the real Message.take() on a message whose free-form meta holds something un-deepcopyable"""
+    message.meta["C07Uncopyable"] = Uncopyable()
+    try:
+        return message.take()
+    finally:
+        message.meta.pop("C07Uncopyable", None)
+
+
 class GenAddon:
     """addon object whose hook attributes are (re)assigned per message by the world"""
 
@@ -346,8 +370,10 @@ class World:
                 elif op == "M":
                     f = self.mut_field(message)
                     message["ChatData"][f] = int(message["ChatData"][f]) + 1
+                elif op == "F":
+                    _failing_take(message)
                 self.trace.append("o%s1" % op)
-            except RuntimeError:
+            except (RuntimeError, CopyFails):
                 self.trace.append("o%s0" % op)
                 if not caught:
                     raise
@@ -556,8 +582,10 @@ def run_ops_impl(rel, acks, ops):
                 circuit.send(c)
             elif op == "M":
                 msg["ChatData"]["Type"] = int(msg["ChatData"]["Type"]) + 1
+            elif op == "F":
+                _failing_take(msg)
             oks.append("1")
-        except RuntimeError:
+        except (RuntimeError, CopyFails):
             oks.append("0")
         except Exception as e:
             oks.append("EXC:" + type(e).__name__)
@@ -584,7 +612,15 @@ def H(pkt="-", lludp="-", rlv="-"):
 
 
 def calm_beh(b):
-    return b[:-1] + ("0" if b[-1] == "x" else b[-1])
+    """Hooks.calm: raise -> falsy return; a caught failing take is removed, an uncaught one ends the hook"""
+    out = ""
+    for ch in b[:-1]:
+        if ch == "F":
+            return out + "0"
+        if ch == "f":
+            continue
+        out += ch
+    return out + ("0" if b[-1] == "x" else b[-1])
 
 
 def calm_case(case):
@@ -606,10 +642,12 @@ def calm_case(case):
 def has_raise(case):
     for m in case["msgs"]:
         for pb in m.get("sub", {}).values():
-            if pb[1].endswith("x"):
+            if pb[1].endswith("x") or "F" in pb[1] or "f" in pb[1]:
                 return True
         for mod in m.get("mods", []):
             for hs in mod:
+                if hs[1] != "-" and ("F" in hs[1] or "f" in hs[1]):
+                    return True
                 if hs[0] == "x" or (hs[1] != "-" and hs[1].endswith("x")) or (hs[2] != "-" and "x" in hs[2]):
                     return True
     return False
@@ -647,7 +685,7 @@ def pkt_claimed(m):
 
 
 def strip_exc(line):
-    return " ".join(t for t in line.split(" ") if not t.startswith("X"))
+    return " ".join(t for t in line.split(" ") if not t.startswith("X") and not t.startswith("oF"))
 
 
 def check_trace(m, toks):
@@ -720,8 +758,8 @@ def check_case(case, impl_line=None, traces=None):
 # --------------------------------------------------------------------------
 # generators
 
-B7 = ["0", "1", "x", "T1", "D0", "C0", "M0"]
-B9 = B7 + ["S0", "-"]
+B7 = ["0", "1", "x", "T1", "D0", "C0", "M0", "F1"]
+B9 = B7 + ["S0", "f0", "-"]
 SHAPES = [("P", 0, 0, 0, 0), ("P", 0, 1, 1, 1), ("C", 0, 1, 0, 0), ("R", 1, 1, 0, 0), ("R", 2, 0, 1, 0), ("R", 0, 1, 0, 0)]
 
 
@@ -769,7 +807,7 @@ def gen_exhaustive(ctx):
         for l in ("0", "1", "D0"):
             yield "exh-rlv", {"msgs": [mk_msg(("R", 2, 1, 0, 0), mods=[[H("-", "0", a)], [H("-", l, b)]])]}
     # E: a module with two sub-addons
-    B5 = ["0", "1", "x", "T1", "D0"] + (["C0", "M0", "S0", "-"] if th else [])
+    B5 = ["0", "1", "x", "T1", "D0", "F1"] + (["C0", "M0", "S0", "f0", "-"] if th else [])
     for shape in (SHAPES[0], SHAPES[1]):
         for a, b, c in itertools.product(B5, repeat=3):
             yield "exh-subaddons", {"msgs": [mk_msg(shape, mods=[[H("-", a), H("-", b), H("-", c)]])]}
@@ -784,7 +822,7 @@ def gen_exhaustive(ctx):
     #    from a fresh message and from a message a subscriber already took
     L = ctx.pick(3, 5)
     for n in range(1, L + 1):
-        for ops in itertools.product("tdscm", repeat=n):
+        for ops in itertools.product("tdscmf", repeat=n):
             seq = "".join(ops) + "0"
             yield "exh-opseq", {"msgs": [mk_msg(SHAPES[1], mods=[[H("-", seq)]])]}
             if n <= L - 1:
@@ -794,7 +832,7 @@ def gen_exhaustive(ctx):
 
 def rand_beh(rng, maxops=4):
     n = rng.choice((0, 0, 1, 1, 2, 3, maxops))
-    ops = "".join(rng.choice("TDSCMtdscm") for _ in range(n))
+    ops = "".join(rng.choice("TDSCMFtdscmf") for _ in range(n))
     return ops + rng.choice("0001x")
 
 
@@ -877,7 +915,7 @@ def correspond(ctx):
 def _correspond(ctx):
     res = CorrResult(
         suite="addon/subscriber dispatch + ownership: real proxy vs extracted model",
-        rule="corpus first; exhaustive scopes (2 addon objects x 9 lludp behaviours x message shapes; 1 subscriber x 1 addon "
+        rule="corpus first; exhaustive scopes (2 addon objects x 11 lludp behaviours (incl. a take() that fails in its copy step, caught and uncaught) x message shapes; 1 subscriber x 1 addon "
              "x 6 shapes x reliability/acks; packet-hook returns of 2 addons; RLV with 2 commands x 2 addons x 10 per-command "
              "assignments; a module with 2 sub-addons; 2 subscribers (one one-shot) x predicates true/false/raising followed "
              "by a second datagram; every caught ownership-op sequence up to length %d by an addon on a fresh and on an "
